@@ -1427,7 +1427,7 @@ def frag_corrtimes(src):
 #   statements : docstring | assignment | augmented assignment of the step
 #                counter | expression statement (a call) | return | if/elif/else
 #                (forks into paths) | for (body may only mutate the network) |
-#                try/except BaseException|Exception: <restore_*(...) calls>; raise
+#                try/except <class>: <restore_*(...) calls>; raise   (the class is recorded)
 #   calls      : classified by the tables of the `OrderSpec` of the class:
 #                user callables (attributes that hold user-supplied functions),
 #                mutating methods / methods of the tensor-network attributes,
@@ -1467,9 +1467,15 @@ inductive MicroOp where
   /-- the result containers are (re)created empty -/
   | initResults
   /-- start / end of a `try` block whose handler restores the tensor networks saved
-      immediately before the block and re-raises -/
-  | tryBegin
+      immediately before the block and re-raises; `catchAll` = the handler catches every
+      `BaseException` (`except BaseException:` or a bare `except:`), `false` for a narrower
+      class such as `except Exception:` -/
+  | tryBegin (catchAll : Bool)
   | tryEnd
+  /-- the temporary traces of the chain state are (re)computed / read / discarded -/
+  | traceCompute
+  | traceRead
+  | traceClear
 deriving DecidableEq, Repr
 
 """
@@ -1490,7 +1496,8 @@ class OrderSpec:
     def __init__(self, user=None, user_lists=None, net=(), mut_methods=(), step_arg_methods=(),
                  backend_lists=(), control_methods=(), record_methods=(), record_attrs=(),
                  init_results_methods=(), pure=(), pure_methods=(), start_attr=None,
-                 net_constructors=()):
+                 net_constructors=(), trace_compute=(), trace_clear=(), trace_read=(),
+                 record_local_methods=()):
         self.user = user or {}                # self.<attr>(...)  -> callUser id
         self.user_lists = user_lists or {}    # for f in self.<attr>: f(...) -> callUser id
         self.net = set(net)                   # attributes holding the persistent tensor network
@@ -1505,6 +1512,12 @@ class OrderSpec:
         self.pure_methods = set(pure_methods)  # method names that are pure on any receiver
         self.start_attr = start_attr
         self.net_constructors = set(net_constructors)   # classes whose instance is a fresh network
+        # methods (of self or of a network attribute) that compute / discard / read the
+        # temporary traces; `<local>.<m>(..)` with m in record_local_methods records a result
+        self.trace_compute = set(trace_compute)
+        self.trace_clear = set(trace_clear)
+        self.trace_read = set(trace_read)
+        self.record_local_methods = set(record_local_methods)
 
 
 PURE_COMMON = {"int", "len", "range", "bool", "zip", "copy", "deepcopy", "reversed", "list",
@@ -1664,8 +1677,15 @@ class OrderExtractor:
                     self.expr_ops(a, p)
                 for kw in e.keywords:
                     self.expr_ops(kw.value, p)
-                if e.func.attr in sp.pure_methods:
+                if e.func.attr in sp.pure_methods or e.func.attr in ("items", "keys", "values"):
                     return
+                # self.<record attr>[..].append(..)
+                base = e.func.value
+                if e.func.attr == "append" and isinstance(base, ast.Subscript):
+                    bch = attr_chain(base.value)
+                    if bch and len(bch) == 2 and bch[0] == "self" and bch[1] in sp.record_attrs:
+                        p.ops.append(("record",))
+                        return
             self.fail(e, "call of " + ast.unparse(e.func)[:60])
         for a in e.args:
             self.expr_ops(a, p)
@@ -1684,6 +1704,26 @@ class OrderExtractor:
         if len(ch) == 1 and p.bound.get(ch[0], (None,))[0] == "user":
             p.ops.append(("callUser", p.bound[ch[0]][1], need(self.step_arg(e, p), name).key()))
             return
+        # temporary traces
+        tm = ch[-1] if (len(ch) == 2 and ch[0] == "self") or \
+            (len(ch) == 3 and ch[0] == "self" and ch[1] in sp.net) else None
+        if tm in sp.trace_compute:
+            p.ops.append(("traceCompute",))
+            return
+        if tm in sp.trace_clear:
+            p.ops.append(("traceClear",))
+            return
+        if tm in sp.trace_read:
+            p.ops.append(("traceRead",))
+            return
+        # methods of plain local objects
+        if len(ch) == 2 and ch[0] != "self" and ch[0] not in p.bound \
+                and ch[0] not in ("np", "na", "util", "tn"):
+            if ch[1] in sp.record_local_methods:
+                p.ops.append(("record",))
+                return
+            if ch[1] in ("append", "items"):
+                return
         # mutation of the persistent tensor network
         is_self_m = len(ch) == 2 and ch[0] == "self"
         is_backend_m = len(ch) == 2 and p.bound.get(ch[0], (None,))[0] == "backend"
@@ -1740,6 +1780,8 @@ class OrderExtractor:
                 if p.cur is None:
                     self.fail(node, "network changed while the step counter is unknown")
                 p.ops.append(("mutate", p.cur.key()))
+                return
+            if base and len(base) == 1:          # item of a local container
                 return
             self.fail(node, "assignment to " + ast.unparse(t))
         if isinstance(t, ast.Attribute):
@@ -1814,7 +1856,7 @@ class OrderExtractor:
             for p in paths:
                 n0 = len(p.ops)
                 self.expr_ops(s.value, p)
-                if len(p.ops) != n0:
+                if any(o != ("traceRead",) for o in p.ops[n0:]):
                     self.fail(s, "state-changing call in return expression")
                 p.done = True
             return paths
@@ -1839,10 +1881,10 @@ class OrderExtractor:
                 if len(res) != 1 or res[0].done or s.orelse:
                     self.fail(s, "for-loop with branching body")
                 body_ops = res[0].ops
-                if any(o[0] != "mutate" for o in body_ops) or \
+                if any(o[0] not in ("mutate", "traceRead", "record") for o in body_ops) or \
                         (res[0].cur.key() if res[0].cur else None) != (p.cur.key() if p.cur else None):
-                    self.fail(s, "for-loop body does more than mutate the network")
-                # zero or more iterations of network mutation: recorded once
+                    self.fail(s, "for-loop body does more than mutate the network / record")
+                # zero or more iterations: recorded once
                 p.ops += body_ops
                 out.append(p)
             return out
@@ -1850,8 +1892,12 @@ class OrderExtractor:
             if len(s.handlers) != 1 or s.orelse or s.finalbody:
                 self.fail(s, "try shape")
             h = s.handlers[0]
-            if not (isinstance(h.type, ast.Name) and h.type.id in ("BaseException", "Exception")):
-                self.fail(s, "handler does not catch Exception/BaseException")
+            if h.type is None:
+                catch_all = True                       # bare `except:`
+            elif isinstance(h.type, ast.Name):
+                catch_all = h.type.id == "BaseException"
+            else:
+                self.fail(s, "handler class is not a plain name")
             if not h.body or not (isinstance(h.body[-1], ast.Raise) and h.body[-1].exc is None):
                 self.fail(s, "handler does not re-raise")
             restores = 0
@@ -1872,7 +1918,7 @@ class OrderExtractor:
             for p in paths:
                 if not p.ops or p.ops[-1] != ("saveNet",):
                     self.fail(s, "try block is not immediately preceded by saving the networks")
-                p.ops[-1] = ("tryBegin",)
+                p.ops[-1] = ("tryBegin", catch_all)
                 res = self.stmts(s.body, [p])
                 for r in res:
                     if r.done:
@@ -1890,8 +1936,9 @@ class OrderExtractor:
             if ("saveNet",) in q.ops:
                 self.fail(fn, "networks saved without a protecting try block")
             ops = []
-            for o in q.ops:                     # adjacent identical mutations count once
-                if ops and o[0] == "mutate" and ops[-1] == o:
+            for o in q.ops:                     # adjacent identical mutations / records count once
+                if ops and o[0] in ("mutate", "record", "traceRead", "traceCompute") \
+                        and ops[-1] == o:
                     continue
                 ops.append(o)
             if ops not in outs:
@@ -1909,6 +1956,8 @@ def _lean_op(o):
         return ".callUser %d %s" % (o[1], aff(o[2]))
     if t == "control":
         return ".control %s %s" % ("true" if o[1] else "false", aff(o[2]))
+    if t == "tryBegin":
+        return ".tryBegin %s" % ("true" if o[1] else "false")
     return "." + t
 
 
@@ -2161,6 +2210,31 @@ def frag_looporder(src):
     emit_ops("tebd_initialize", ops,
              "%s:%d  PtTebd.initialize (after `initStep` step values are relative to the start step)"
              % (TE, fn.lineno))
+    # result recording and the read-only getters: what they do to the temporary traces
+    gspec = OrderSpec(net={"_t_mps"}, trace_compute={"compute_traces"},
+                      trace_clear={"clear_traces"},
+                      trace_read={"get_norm", "get_density_matrix"},
+                      record_attrs={"_results"}, record_local_methods={"add"},
+                      pure=PURE_COMMON | {"isinstance", "AugmentedMPS"},
+                      pure_methods=PURE_METHODS_COMMON | {"time", "get_bond_dimensions",
+                                                          "get_gamma", "get_lambda"})
+    for qual, name in (("PtTebd._append_results", "tebd_append_results"),
+                       ("PtTebd.get_current_density_matrix", "tebd_get_dm"),
+                       ("PtTebd.get_results", "tebd_get_results"),
+                       ("PtTebd.get_augmented_mps", "tebd_get_mps")):
+        fn = src.function(TE, qual)
+        ops = _single(OrderExtractor(gspec, qual).run(fn), qual)
+        emit_ops(name, ops, "%s:%d  %s" % (TE, fn.lineno, qual))
+    TEB = "oqupy/backends/pt_tebd_backend.py"
+    bspec = OrderSpec(trace_clear={"clear_traces"},
+                      trace_compute={"_compute_bath_trace_gammas", "_compute_full_trace_gammas",
+                                     "_compute_total_traces"},
+                      pure=PURE_COMMON, pure_methods=PURE_METHODS_COMMON)
+    fn = src.function(TEB, "PtTebdBackend.compute_traces")
+    paths = OrderExtractor(bspec, "PtTebdBackend.compute_traces").run(fn)
+    emit_paths("tebd_compute_traces_paths", paths,
+               "%s:%d  PtTebdBackend.compute_traces (one list per control-flow path)"
+               % (TEB, fn.lineno))
     fn, loop = _loop_shape(src, TE, "PtTebd.compute")
     if not isinstance(loop, ast.While) or loop.orelse or not loop.body \
             or not (isinstance(loop.body[0], ast.Expr) and _is_step_call(loop.body[0].value)):
@@ -7545,6 +7619,8 @@ class _BSVal:
             ch = attr_chain(e)
             if ch and len(ch) == 2 and ch[0] == "self" and ch[1] in self.attrs:
                 return self.use(self.attrs[ch[1]])
+            if ch and len(ch) == 2 and ch[0] in self.names and ch[1] in ("real", "imag"):
+                return "(F.%s %s)" % ("re" if ch[1] == "real" else "im", self.use(self.names[ch[0]]))
             raise Untranslatable("integrand: attribute " + where)
         if isinstance(e, ast.UnaryOp) and isinstance(e.op, ast.USub):
             return "(-%s)" % self.tr(e.operand)
@@ -7573,6 +7649,32 @@ class _BSVal:
                     and isinstance(e.args[0], ast.Name) and e.args[0].id == "w":
                 return self.use(self.sd_name)
         raise Untranslatable("integrand: cannot translate " + where)
+
+
+    def cond(self, e):
+        """a comparison of two real-valued quantities -> Bool term"""
+        if isinstance(e, ast.Compare) and len(e.ops) == 1 and isinstance(e.ops[0], (ast.Lt, ast.Gt)):
+            a, b = self.tr(e.left), self.tr(e.comparators[0])
+            return "(F.lt %s %s)" % ((a, b) if isinstance(e.ops[0], ast.Lt) else (b, a))
+        raise Untranslatable("integrand: condition " + _bs_norm(e))
+
+    def run(self, stmts, where):
+        """straight-line code:  x = e  |  if c: x = e   (no else); locals shadow by let-binding
+        semantics (each name denotes its latest value)"""
+        for st in stmts:
+            if isinstance(st, ast.Assign) and len(st.targets) == 1 and isinstance(st.targets[0], ast.Name):
+                self.names[st.targets[0].id] = self.tr(st.value)
+            elif isinstance(st, ast.If) and not st.orelse:
+                c = self.cond(st.test)
+                for inner in st.body:
+                    if not (isinstance(inner, ast.Assign) and len(inner.targets) == 1
+                            and isinstance(inner.targets[0], ast.Name)
+                            and inner.targets[0].id in self.names):
+                        raise Untranslatable("%s: statement under `if`: %s" % (where, _bs_norm(inner)[:80]))
+                    nm = inner.targets[0].id
+                    self.names[nm] = "(if %s then %s else %s)" % (c, self.tr(inner.value), self.names[nm])
+            else:
+                raise Untranslatable("%s: statement %s" % (where, _bs_norm(st)[:80]))
 
 
 BS_KSIG = "{K : Type} [Add K] [Sub K] [Mul K] [Div K] [Neg K] [IntCast K] (F : ExpFns K)"
@@ -7644,12 +7746,13 @@ def _bs_integrands(src, out, qual, pre):
                         "%s:%d  %s: the thermal expression is used while  %s  (binary64 eps = 2^-52), "
                         "the guard expression otherwise" % (BS_REL, g.lineno, qual, _bs_norm(g.test))))
     for blk, tag in ((g.body, "thermal"), (g.orelse, "guard")):
-        if len(blk) != 1 or not isinstance(blk[0], ast.Assign) \
-                or _bs_norm(blk[0].targets[0]) != "inte":
-            raise Untranslatable("%s: %s branch is not a single `inte = ...`" % (qual, tag))
-        out.append(_bs_kdef("%s_%s" % (pre, tag), params, _BSVal(names, attrs).tr(blk[0].value),
-                            "%s:%d  %s, %s branch:  inte = %s"
-                            % (BS_REL, blk[0].lineno, qual, tag, _bs_norm(blk[0].value))))
+        if not blk or not isinstance(blk[-1], ast.Assign) or _bs_norm(blk[-1].targets[0]) != "inte":
+            raise Untranslatable("%s: %s branch does not end in `inte = ...`" % (qual, tag))
+        v = _BSVal(names, attrs)
+        v.run(blk, "%s (%s branch)" % (qual, tag))
+        out.append(_bs_kdef("%s_%s" % (pre, tag), params, v.names["inte"],
+                            "%s:%d  %s, %s branch:  %s"
+                            % (BS_REL, blk[0].lineno, qual, tag, " ; ".join(_bs_norm(x) for x in blk))))
     # 3./4. integration ranges
     want1 = "integral = _complex_integral(integrand, a=0.0, b=self.cutoff, epsrel=epsrel, limit=subdiv_limit)"
     want2 = ("if self.cutoff_type != 'hard': integral += _complex_integral(integrand, a=self.cutoff, "
@@ -8585,6 +8688,297 @@ def frag_mpowiring(src):
     _mw_compute_caps(src, out)
     return "\n".join(out)
 # end of MpoWiring
+
+
+# ---------------------------------------------------------------------------
+# ChainLindblad  (C10):  the operator algebra of SystemChain.add_site_hamiltonian /
+# add_site_dissipation / add_nn_hamiltonian / add_nn_dissipation, with the helpers of
+# oqupy/operators.py inlined: every Liouvillian contribution as a sum of terms
+#     coefficient * (rho -> A rho B)           (one site:  np.kron(A, B.T))
+#     coefficient * (rho -> (A1 x A2) rho (B1 x B2))   (two sites:  np.kron(np.kron(A1, B1.T), np.kron(A2, B2.T)))
+# ---------------------------------------------------------------------------
+
+CL_PREAMBLE = '''/-- operator expressions over the arguments of the method (`var k` = k-th operator argument) -/
+inductive OpE where
+  | one
+  | var (k : Nat)
+  | dag (e : OpE)
+  | mul (a b : OpE)
+  deriving DecidableEq, Repr
+
+/-- coefficient `(re + i·im) · gamma^g` -/
+structure Coef where
+  re : Rat
+  im : Rat
+  gamma : Bool
+  deriving DecidableEq, Repr
+
+/-- `coef · (rho -> left · rho · right)`, i.e. `coef * np.kron(left, right.T)` -/
+structure Term1 where
+  coef : Coef
+  left : OpE
+  right : OpE
+  deriving DecidableEq, Repr
+
+/-- `coef · (rho -> (l1 x l2) · rho · (r1 x r2))`, i.e.
+    `coef * np.kron(np.kron(l1, r1.T), np.kron(l2, r2.T))` -/
+structure Term2 where
+  coef : Coef
+  l1 : OpE
+  r1 : OpE
+  l2 : OpE
+  r2 : OpE
+  deriving DecidableEq, Repr
+'''
+
+
+class _CLEval:
+    """symbolic evaluation of the numpy expressions that build a Liouvillian"""
+
+    def __init__(self, src):
+        self.src = src
+        self.helpers = {}
+        tree = src.tree("oqupy/operators.py")
+        for n in tree.body:
+            if isinstance(n, ast.FunctionDef):
+                self.helpers[n.name] = n
+
+    # -- operator values: ('one',) ('var',k) ('dag',e) ('T',e) ('conj',e) ('mul',a,b)
+    def norm_op(self, e):
+        k = e[0]
+        if k in ("one", "var"):
+            return e
+        if k == "mul":
+            return ("mul", self.norm_op(e[1]), self.norm_op(e[2]))
+        x = self.norm_op(e[1])
+        if x == ("one",):
+            return x
+        if k == "T":
+            if x[0] == "T":
+                return x[1]
+            if x[0] == "conj":
+                return self.norm_op(("dag", x[1]))
+            if x[0] == "dag":
+                return ("conj", x[1])
+            if x[0] == "mul":       # (ab)^T = b^T a^T
+                return ("mul", self.norm_op(("T", x[2])), self.norm_op(("T", x[1])))
+            return ("T", x)
+        if k == "conj":
+            if x[0] == "conj":
+                return x[1]
+            if x[0] == "T":
+                return self.norm_op(("dag", x[1]))
+            if x[0] == "dag":
+                return ("T", x[1])
+            if x[0] == "mul":
+                return ("mul", self.norm_op(("conj", x[1])), self.norm_op(("conj", x[2])))
+            return ("conj", x)
+        if k == "dag":
+            if x[0] == "dag":
+                return x[1]
+            if x[0] == "T":
+                return ("conj", x[1])
+            if x[0] == "conj":
+                return ("T", x[1])
+            return ("dag", x)
+        raise Untranslatable("operator expression " + repr(e))
+
+    def ev(self, node, env, where):
+        """-> ('op', e) | ('sup', [(coef, kind, ops)]) | ('num', complex, gpow) | ('junk',)"""
+        u = _tl_norm(node)
+        if isinstance(node, ast.Name):
+            if node.id in env:
+                return env[node.id]
+            raise Untranslatable("%s: unknown name %s" % (where, node.id))
+        if isinstance(node, ast.Constant) and isinstance(node.value, (int, float, complex)) \
+                and not isinstance(node.value, bool):
+            return ("num", complex(node.value), 0)
+        if isinstance(node, ast.UnaryOp) and isinstance(node.op, ast.USub):
+            v = self.ev(node.operand, env, where)
+            return self.scale(("num", -1 + 0j, 0), v, where)
+        if isinstance(node, ast.Attribute) and node.attr == "T":
+            v = self.ev(node.value, env, where)
+            if v[0] != "op":
+                raise Untranslatable("%s: .T of a non-operator in %s" % (where, u))
+            return ("op", self.norm_op(("T", v[1])))
+        if isinstance(node, ast.Subscript) and isinstance(node.value, ast.Attribute) \
+                and node.value.attr == "shape":
+            return ("junk",)
+        if isinstance(node, ast.Call):
+            f = node.func
+            if isinstance(f, ast.Attribute) and f.attr in ("conjugate", "conj") and not node.args:
+                v = self.ev(f.value, env, where)
+                if v[0] != "op":
+                    raise Untranslatable("%s: conjugate of a non-operator" % where)
+                return ("op", self.norm_op(("conj", v[1])))
+            name = _tl_norm(f)
+            if name == "np.identity":
+                return ("op", ("one",))
+            if name == "np.array" and len(node.args) == 1:
+                return self.ev(node.args[0], env, where)
+            if name == "np.dot" and len(node.args) == 2 and not node.keywords:
+                a, b = (self.ev(x, env, where) for x in node.args)
+                return self.matmul(a, b, where)
+            if name == "np.kron" and len(node.args) == 2 and not node.keywords:
+                a, b = (self.ev(x, env, where) for x in node.args)
+                return self.kron(a, b, where)
+            short = name[4:] if name.startswith("opr.") else name
+            if short in self.helpers and (name.startswith("opr.") or name == short):
+                return self.call(self.helpers[short], node, env, where)
+            raise Untranslatable("%s: call of %s" % (where, name))
+        if isinstance(node, ast.BinOp):
+            a = self.ev(node.left, env, where)
+            b = self.ev(node.right, env, where)
+            if isinstance(node.op, ast.MatMult):
+                return self.matmul(a, b, where)
+            if isinstance(node.op, ast.Mult):
+                return self.scale(a, b, where)
+            if isinstance(node.op, (ast.Add, ast.Sub)):
+                if a[0] == "num" and b[0] == "num" and a[2] == 0 and b[2] == 0:
+                    return ("num", a[1] + b[1] if isinstance(node.op, ast.Add) else a[1] - b[1], 0)
+                if a[0] != "sup" or b[0] != "sup":
+                    raise Untranslatable("%s: sum of non-superoperators in %s" % (where, u[:80]))
+                if isinstance(node.op, ast.Sub):
+                    b = self.scale(("num", -1 + 0j, 0), b, where)
+                return ("sup", a[1] + b[1])
+        raise Untranslatable("%s: expression %s" % (where, u[:100]))
+
+    def matmul(self, a, b, where):
+        if a[0] != "op" or b[0] != "op":
+            raise Untranslatable("%s: matrix product of non-operators" % where)
+        if a[1] == ("one",):
+            return b
+        if b[1] == ("one",):
+            return a
+        return ("op", ("mul", a[1], b[1]))
+
+    def scale(self, a, b, where):
+        if a[0] == "num" and b[0] == "num":
+            return ("num", a[1] * b[1], a[2] + b[2])
+        if b[0] == "num":
+            a, b = b, a
+        if a[0] == "num" and b[0] == "sup":
+            out = []
+            for (c, g), kind, ops in b[1]:
+                out.append(((a[1] * c, a[2] + g), kind, ops))
+            return ("sup", out)
+        raise Untranslatable("%s: product of %s and %s" % (where, a[0], b[0]))
+
+    def kron(self, a, b, where):
+        if a[0] == "op" and b[0] == "op":
+            # np.kron(A, X) acts as rho -> A rho X^T
+            return ("sup", [((1 + 0j, 0), 1, (a[1], self.norm_op(("T", b[1]))))])
+        if a[0] == "sup" and b[0] == "sup" and len(a[1]) == 1 and len(b[1]) == 1 \
+                and a[1][0][1] == 1 and b[1][0][1] == 1 \
+                and a[1][0][0] == (1 + 0j, 0) and b[1][0][0] == (1 + 0j, 0):
+            return ("sup", [((1 + 0j, 0), 2, a[1][0][2] + b[1][0][2])])
+        raise Untranslatable("%s: np.kron of unsupported operands" % where)
+
+    def call(self, fn, node, env, where):
+        params = [a.arg for a in fn.args.args]
+        bound = {}
+        for p, a in zip(params, node.args):
+            bound[p] = self.ev(a, env, where)
+        for kw in node.keywords:
+            if kw.arg not in params:
+                raise Untranslatable("%s: keyword %s of %s" % (where, kw.arg, fn.name))
+            bound[kw.arg] = self.ev(kw.value, env, where)
+        if sorted(bound) != sorted(params):
+            raise Untranslatable("%s: arguments of %s" % (where, fn.name))
+        return self.body(fn, bound, "operators." + fn.name)
+
+    def body(self, fn, env, where):
+        env = dict(env)
+        for s in _tl_body(fn):
+            if isinstance(s, ast.Assign) and len(s.targets) == 1 and isinstance(s.targets[0], ast.Name):
+                env[s.targets[0].id] = self.ev(s.value, env, where)
+            elif isinstance(s, ast.Return):
+                return self.ev(s.value, env, where)
+            else:
+                raise Untranslatable("%s: statement %s" % (where, _tl_norm(s)[:80]))
+        raise Untranslatable("%s: no return" % where)
+
+
+def _cl_ope(e, where):
+    if e == ("one",):
+        return ".one"
+    if e[0] == "var":
+        return "(.var %d)" % e[1]
+    if e[0] == "dag":
+        return "(.dag %s)" % _cl_ope(e[1], where)
+    if e[0] == "mul":
+        return "(.mul %s %s)" % (_cl_ope(e[1], where), _cl_ope(e[2], where))
+    raise Untranslatable("%s: a bare transpose / complex conjugate (%r) remains in a term; the "
+                         "Lindblad form cannot be stated over an abstract *-algebra" % (where, e))
+
+
+def _cl_rat(x, where):
+    from fractions import Fraction
+    f = Fraction(x)
+    if f.denominator & (f.denominator - 1):
+        raise Untranslatable("%s: coefficient %r" % (where, x))
+    return "(%d : Rat)" % f.numerator if f.denominator == 1 else \
+        "((%d : Rat) / %d)" % (f.numerator, f.denominator)
+
+
+def _cl_emit(name, kind, terms, where, doc, out):
+    rows = []
+    for (c, g), k, ops in terms:
+        if k != kind:
+            raise Untranslatable("%s: a %d-site term in a %d-site Liouvillian" % (where, k, kind))
+        if g not in (0, 1):
+            raise Untranslatable("%s: gamma to the power %d" % (where, g))
+        coef = "⟨%s, %s, %s⟩" % (_cl_rat(c.real, where), _cl_rat(c.imag, where),
+                                  "true" if g else "false")
+        rows.append("⟨%s, %s⟩" % (coef, ", ".join(_cl_ope(o, where) for o in ops)))
+    out.append("/-- %s -/\ndef %s : List Term%d :=\n  [%s]\n"
+               % (doc.replace("-/", "- /"), name, kind, ",\n   ".join(rows)))
+
+
+def _cl_method(src, ev, qual, target, argnames, gamma_name, lean_name, kind, out):
+    rel = "oqupy/system.py"
+    fn = src.function(rel, qual)
+    env = {}
+    for k, a in enumerate(argnames):
+        env[a] = ("op", ("var", k))
+    if gamma_name:
+        env[gamma_name] = ("num", 1 + 0j, 1)
+    incr = None
+    for s in _tl_body(fn):
+        if isinstance(s, ast.Assign) and len(s.targets) == 1 and isinstance(s.targets[0], ast.Name):
+            env[s.targets[0].id] = ev.ev(s.value, env, qual)
+        elif isinstance(s, ast.AugAssign) and isinstance(s.op, ast.Add) \
+                and _tl_norm(s.target) == target:
+            if incr is not None:
+                raise Untranslatable("%s: more than one update of %s" % (qual, target))
+            incr = s
+        else:
+            raise Untranslatable("%s: statement %s" % (qual, _tl_norm(s)[:80]))
+    if incr is None:
+        raise Untranslatable("%s: no `%s += ...`" % (qual, target))
+    v = ev.ev(incr.value, env, qual)
+    if v[0] != "sup":
+        raise Untranslatable("%s: the increment is not a superoperator" % qual)
+    doc = "%s:%d  %s:  %s += %s   (operator arguments, in order: %s%s)" % (
+        rel, incr.lineno, qual, target, _tl_norm(incr.value), ", ".join(argnames),
+        "; gamma = " + gamma_name if gamma_name else "")
+    _cl_emit(lean_name, kind, v[1], qual, doc, out)
+
+
+@fragment("ChainLindblad")
+def frag_chainlindblad(src):
+    out = [CL_PREAMBLE]
+    ev = _CLEval(src)
+    _cl_method(src, ev, "SystemChain.add_site_hamiltonian", "self._site_liouvillians[site]",
+               ["hamiltonian"], None, "site_hamiltonian", 1, out)
+    _cl_method(src, ev, "SystemChain.add_site_dissipation", "self._site_liouvillians[site]",
+               ["lindblad_operator"], "gamma", "site_dissipation", 1, out)
+    _cl_method(src, ev, "SystemChain.add_nn_hamiltonian", "self._nn_liouvillians[site]",
+               ["hamiltonian_l", "hamiltonian_r"], None, "nn_hamiltonian", 2, out)
+    _cl_method(src, ev, "SystemChain.add_nn_dissipation", "self._nn_liouvillians[site]",
+               ["lindblad_operator_l", "lindblad_operator_r"], "gamma", "nn_dissipation", 2, out)
+    return "\n".join(out)
+# end of ChainLindblad
 
 
 def main():
